@@ -370,8 +370,17 @@ fn run_ws_frames(inst: &Instance, bodies: &[Vec<usize>], out: &std::sync::Mutex<
             };
             let open_state = state(inst);
             let closed = c.close_and_wait();
-            let (watchers, conn, key) = with_db(&inst.node.dbs, "t", |db| (watcher_counts(db), db.connections_count(), dump_db(db).get("$connections").map(|k| k.value.clone()))).unwrap();
-            let after = format!("closed={} watchers_left={} counter={} $connections={:?}", closed, watchers.values().filter(|n| **n > 0).count(), conn, key.as_ref().and_then(|k| k.parse::<i64>().ok()).unwrap_or(0));
+            // the server's on_close runs around the closing handshake, not strictly before the socket is dropped:
+            // a state that is not clean yet is read again for up to 3 s
+            let t0 = std::time::Instant::now();
+            let after = loop {
+                let (watchers, conn, key) = with_db(&inst.node.dbs, "t", |db| (watcher_counts(db), db.connections_count(), dump_db(db).get("$connections").map(|k| k.value.clone()))).unwrap();
+                let after = format!("closed={} watchers_left={} counter={} $connections={:?}", closed, watchers.values().filter(|n| **n > 0).count(), conn, key.as_ref().and_then(|k| k.parse::<i64>().ok()).unwrap_or(0));
+                if after.starts_with("closed=true watchers_left=0 counter=0 $connections=0") || t0.elapsed() > std::time::Duration::from_secs(3) {
+                    break after;
+                }
+                std::thread::sleep(std::time::Duration::from_millis(5));
+            };
             results.push((frames, open_state, after));
         }
         if failed {
